@@ -6,6 +6,8 @@ import (
 	_ "verifharness/internal/props/c04"
 	_ "verifharness/internal/props/c05"
 	_ "verifharness/internal/props/c06"
+	_ "verifharness/internal/props/c08"
+	_ "verifharness/internal/props/c09"
 	_ "verifharness/internal/props/c12"
 	_ "verifharness/internal/props/c13"
 	_ "verifharness/internal/props/c15"
